@@ -112,27 +112,37 @@ impl Adapter for CbAd {
             "fb": if seq { 0 } else { rng.below(2) },
             "lazy": if seq && rng.pct(40) { 1 } else { 0 },
             "ctor": rng.below(2),
+            "ord": rng.below(2),
         })
     }
     fn build(&mut self, cfg: &Value, sim: &mut Sim) {
         let u = |k: &str| cfg[k].as_u64().unwrap();
-        let mut b = CircuitBreakerLayer::builder()
-            .failure_rate_threshold(q(u("thr")))
-            .sliding_window_type(if cfg["wt"] == "count" { SlidingWindowType::CountBased } else { SlidingWindowType::TimeBased })
-            .sliding_window_size(u("N") as usize)
-            .sliding_window_duration(Duration::from_millis(u("D")))
-            .wait_duration_in_open(Duration::from_millis(u("wait")))
-            .permitted_calls_in_half_open(u("perm") as usize)
-            .minimum_number_of_calls(u("min") as usize);
-        if u("slowOn") == 1 {
-            b = b.slow_call_duration_threshold(Duration::from_millis(u("slowThr"))).slow_call_rate_threshold(q(u("slowRate")));
+        // the same options applied to a builder of any classifier type (the typestate builder is
+        // rebuilt by failure_classifier(): options given before and after it must both survive)
+        macro_rules! opts {
+            ($b:expr) => {{
+                let mut b = $b
+                    .failure_rate_threshold(q(u("thr")))
+                    .sliding_window_type(if cfg["wt"] == "count" { SlidingWindowType::CountBased } else { SlidingWindowType::TimeBased })
+                    .sliding_window_size(u("N") as usize)
+                    .sliding_window_duration(Duration::from_millis(u("D")))
+                    .wait_duration_in_open(Duration::from_millis(u("wait")))
+                    .permitted_calls_in_half_open(u("perm") as usize)
+                    .minimum_number_of_calls(u("min") as usize);
+                if u("slowOn") == 1 {
+                    b = b.slow_call_duration_threshold(Duration::from_millis(u("slowThr"))).slow_call_rate_threshold(q(u("slowRate")));
+                }
+                b
+            }};
         }
+        let classifier_first = cfg["ord"].as_u64().unwrap_or(0) == 1;
         let inner = Inner::new(&sim.w);
         let fb = u("fb") == 1;
         let fallback = |r: Req| -> BoxFuture<'static, Result<Resp, IErr>> { Box::pin(async move { Ok(Resp { serial: 9000 + r.id as u64, req: r.id }) }) };
         use tower::Layer;
         let via_layer = cfg["ctor"].as_u64().unwrap_or(0) == 1;
         let h: Box<dyn Handle> = if cfg["cls"] == "default" {
+            let b = opts!(CircuitBreakerLayer::builder());
             let svc = if via_layer { b.build().layer(inner) } else { b.build().layer_fn(inner) };
             if fb {
                 Box::new(svc.with_fallback(fallback))
@@ -140,7 +150,12 @@ impl Adapter for CbAd {
                 Box::new(svc)
             }
         } else {
-            let l = b.failure_classifier(|r: &Result<Resp, IErr>| matches!(r, Err(e) if e.code != 2)).build();
+            let cls = |r: &Result<Resp, IErr>| matches!(r, Err(e) if e.code != 2);
+            let l = if classifier_first {
+                opts!(CircuitBreakerLayer::builder().failure_classifier(cls)).build()
+            } else {
+                opts!(CircuitBreakerLayer::builder()).failure_classifier(cls).build()
+            };
             let svc = if via_layer { l.layer(inner) } else { l.layer_fn(inner) };
             if fb {
                 Box::new(svc.with_fallback(fallback))
